@@ -79,7 +79,7 @@ def _tmos_ok(child, shape, T):
             tags={2: 'two single-line commands', 3: 'a two-line command then a single-line one',
                   4: 'incomplete input: ValueError, then a normal command', 5: 'three lines, the middle one empty',
                   6: 'a command ending with a newline (an extra empty line is sent)'},
-            timeout=900, split=('shape', 'c1'),
+            timeout=900, split=('shape', 'c1'), twin_timeout=150,
             thorough=dict(params=dict(o1=Text(3), o2=Text(3), o3=Text(3), c1=Int(0, 5), c2=Int(0, 5), c3=Int(0, 5)),
                           timeout=3000, split=('shape', 'c1', 'c2')),
             note='shape 0: cmd; cmd   1: two-line cmd; cmd   2: incomplete cmd (continuation prompt) ; cmd   3: three lines   4: trailing newline.  Cut positions: output + prompt is at most 4 characters, so 1..3 are all interior cuts (0 = delivered whole)')
@@ -176,7 +176,7 @@ def _drive(coro, child, loop):
             tags={2: 'two single-line commands', 3: 'a two-line command then a single-line one',
                   4: 'incomplete input: ValueError, then a normal command', 5: 'a three-line command',
                   6: 'a command ending with a newline (an extra empty line is sent)'},
-            timeout=900, split=('shape', 'c1'),
+            timeout=900, split=('shape', 'c1'), twin_timeout=150,
             thorough=dict(params=dict(o1=Text(2), o2=Text(2), o3=Text(2), c1=Int(0, 4), c2=Int(0, 4), c3=Int(0, 4)), timeout=3000),
             note='the awaited form run_command(..., async_=True) over a hand-driven event loop returns the same values '
                  '(same scripted REPL, output handed to the asyncio protocol piece by piece)')
@@ -250,6 +250,11 @@ def Q2_commands_async(o1, o2, o3, c1, c2, c3, shape, tmo=None):
 def dry_runs():
     yield 'Q1_commands', dict(o1='x', o2='w', o3='yz', c1=1, c2=0, c3=2, shape=4)
     yield 'Q2_commands_async', dict(o1='x', o2='w', o3='yz', c1=1, c2=0, c3=2, shape=4)
+    # one run per history shape INSIDE the quick tier's symbolic domain (outputs within the caps, interior cuts): they
+    # also serve as witnesses for the vacuity tags when the solver's witness search runs out of budget on a busy machine
+    for shape in range(5):
+        yield 'Q1_commands', dict(o1='x', o2='w', o3='yz', c1=1, c2=0, c3=2, shape=shape)
+        yield 'Q2_commands_async', dict(o1='x', o2='w', o3='y', c1=1, c2=0, c3=2, shape=shape)
     for shape in range(4):
         if shape == 3:
             yield 'Q1_commands', dict(o1='x', o2='', o3='yz', c1=1, c2=0, c3=2, shape=3)
